@@ -243,7 +243,20 @@ impl C08Scen {
                     return;
                 }
                 let peer = w.conns[i].peer;
-                if peer != NO_INC {
+                // (with zero-length CIDs a replayed first flight can create another server
+                // connection on the same address tuple, whose close this may be: only compare
+                // with the paired peer if that peer sealed such a frame)
+                let from_peer = peer != NO_INC && {
+                    let tap = w.tap.lock().unwrap();
+                    tap.pkts.iter().filter(|p| p.enc && p.inc == peer).any(|p| {
+                        close_frames(&p.payload).iter().any(|f| match f {
+                            Frame::ApplicationClose { code, reason } => app && *code == want_code && *reason == want_reason,
+                            Frame::ConnectionClose { code, reason, .. } => !app && *code == want_code && *reason == want_reason,
+                            _ => false,
+                        })
+                    })
+                };
+                if from_peer {
                     if let Some((_, code, r)) = self.track.get(&peer).and_then(|t| t.closed_locally.clone()) {
                         let ok = (app && want_code == code && r.starts_with(&want_reason)) || (!app && want_code == wire::code::APPLICATION_ERROR);
                         if !ok {
@@ -307,24 +320,41 @@ impl C08Scen {
             let t_to = self.track.get(&c.inc).and_then(|t| t.lost_at).unwrap_or(0);
             // last first-seen accepted packet before the timeout
             let mut seen = std::collections::BTreeSet::new();
-            let mut last_acc: Option<(Ns, usize)> = None;
+            // two views of "last packet received": `sure` counts packets quinn certainly processed
+            // (first-seen and well inside its 128-packet duplicate window) and gives the lower
+            // bound; `maybe` counts every first-seen packet and gives the upper bound
+            let mut last_sure: Option<Ns> = None;
+            let mut last_maybe: Option<(Ns, usize)> = None;
+            let mut highest = [0u64; 3];
             // (1-RTT packets that arrive while the receiver is still handshaking are authenticated
             // but dropped unprocessed: they are not "received" in the protocol sense)
             let usable = |p: &crate::tap::PktRec| p.space != Space::OneRtt || c.connected_at.is_some_and(|t| p.t >= t);
-            for (idx, p) in tap.pkts.iter().enumerate().filter(|(_, p)| !p.enc && p.ok && p.inc == c.inc && p.t <= t_to && usable(p)) {
-                if seen.insert((p.space.pn_space(), p.pn)) {
-                    last_acc = Some((p.t, idx));
+            for (idx, p) in tap.pkts.iter().enumerate().filter(|(_, p)| !p.enc && p.ok && p.inc == c.inc && p.t <= t_to) {
+                let sp = p.space.pn_space();
+                let stale = highest[sp].saturating_sub(p.pn) >= 100;
+                highest[sp] = highest[sp].max(p.pn);
+                // (a dropped-while-handshaking packet still enters the duplicate filter, so a later
+                // copy of it is a duplicate, not a first-seen packet)
+                if seen.insert((sp, p.pn)) && usable(p) {
+                    last_maybe = Some((p.t, idx));
+                    if !stale {
+                        last_sure = Some(p.t);
+                    }
                 }
             }
-            let Some((la, la_idx)) = last_acc else { continue };
+            let Some((la_hi, la_idx)) = last_maybe else { continue };
+            let la = last_sure.unwrap_or(0);
             // first ack-eliciting packet sent after it (ledger order, not merely time order)
             let first_ae = tap.pkts.iter().skip(la_idx + 1).filter(|p| p.enc && p.inc == c.inc && p.t <= t_to).find(|p| wire::frames(&p.payload).0.iter().any(|f| f.ack_eliciting())).map(|p| p.t);
-            let restart = first_ae.unwrap_or(la).max(la);
+            let restart = first_ae.unwrap_or(la_hi).max(la_hi);
             let idle = idle_hi;
             if t_to + MS < la + idle_lo {
                 problems.push(("timed-out-too-early", format!("inc{} reported TimedOut at {} but accepted a packet at {} and the idle timeout in force is {}", c.inc, fmt_t(t_to), fmt_t(la), fmt_t(idle_lo))));
             }
-            let ub = restart + idle.max(3 * pto_ub) + w.drv.late_max + 2 * MS;
+            // one extra PTO of margin: quinn classifies a packet as ack-eliciting before its frames
+            // are written, so an ACK packet that picks up a STREAMS_BLOCKED notice on the way is
+            // tracked as non-eliciting and the restart happens with the next probe instead
+            let ub = restart + idle.max(3 * pto_ub) + pto_ub + w.drv.late_max + 2 * MS;
             if t_to > ub {
                 problems.push(("timed-out-too-late", format!("inc{} reported TimedOut at {}; last legitimate restart of the idle timer at {}, idle timeout {}, 3xPTO bound {}", c.inc, fmt_t(t_to), fmt_t(restart), fmt_t(idle), fmt_t(3 * pto_ub))));
             }
@@ -436,11 +466,10 @@ fn run(ch: Chooser, ctx: &RunCtx, mut opts: BasicOpts, mode: u32) -> RunOut {
     opts.idle_off = false;
     opts.op_kinds = vec![0, 1];
     opts.wl.strict_api = false; // connections are closed under the workload's feet
-    if mode == 3 {
-        // a client connection may be adopted by a connection of the restarted server: the data
-        // ledger's pairing does not follow that, and data integrity is not C08's business
-        opts.wl.check_data = false;
-    }
+    // replays after drain and retransmitted first flights create further server-side connections
+    // for one client connection; the data ledger's pairing does not follow that, and data
+    // integrity is not C08's business
+    opts.wl.check_data = false;
     opts.cid_len_choices = vec![8, 8, 4, 20, 0];
     if mode == 2 {
         // keep-alive world: clean network, idle timeout short, keep-alive shorter on one side
